@@ -23,7 +23,7 @@ PickDelta ==
   \* with load matching stay on the ratio lattice (exact arithmetic within 32 bits)
   /\ (lm => \A t \in 1..n :
              RatioOK(delta'[t] + ISumSet(LAMBDA i : comps[i].v[t], {i \in Idx(comps) : IsProd(comps[i]) /\ CarrierOf(comps[i]) = "ELECTRICIDAD"}),
-                     part.ua[t] + part.ub[t]))
+                     ISumSet(LAMBDA i : comps[i].v[t], {i \in Idx(comps) : IsEpbUse(comps[i]) /\ CarrierOf(comps[i]) = "ELECTRICIDAD"})))
   /\ UNCHANGED <<n, lm, shape, part, comps, cfg>>
 Next14 == (Next /\ UNCHANGED delta) \/ PickDelta
 Spec14 == Init14 /\ [][Next14]_vars14
